@@ -22,6 +22,12 @@ def pooled_greedy_check(ctx, n):
     for _ in range(n):
         P = r.randint(2, 8)
         pop = [mk_agent(i, r.choice([0.0, 1.0, 1.0, 2.5, -1.0, float("inf")])) for i in range(P)]
+        if r.random() < 0.5:
+            # exact TWINS in the population (value-identical agents: several agents clipped onto one corner, a copied best): every slot is still its own slot
+            for _ in range(r.randint(1, 3)):
+                a_, b_ = r.randrange(P), r.randrange(P)
+                pop[b_] = mk_agent(pop[a_].position[0], pop[a_].cost)
+            pop.sort(key=lambda a: a.cost)
         new = [mk_agent(100 + i, r.choice([0.0, 1.0, 0.5, 3.0, -2.0])) for i in range(P + r.randint(0, 2))]
         out = {}
         for mode, wk in (("serial", 1), ("thread", r.choice([1, 2, 4, 8]))):
